@@ -180,6 +180,51 @@ const GENERATED_EVAL: &[&str] = &[
     r#"datetime("2024-01-01") < duration("1d") || duration("1d") <= datetime("2024-01-01") || datetime("2024-01-01") == duration("0ms")"#,
 ];
 
+/// a synthetic bundle: one rich schema, matching entities, and policies written against them, so that
+/// the validator (strict, permissive, levels) and the evaluator see well-typed and nearly well-typed
+/// programs over real data
+const VAL_SCHEMA: &str = r#"
+namespace Org {
+  type Address = { street: String, zip?: Long, geo?: { lat: decimal, ip: ipaddr } };
+  entity Team in [Team] = { lead?: Person, budget: Long };
+  entity Person in [Team] = { addr: Address, boss?: Person, kind: Kind, peers: Set<Person>, since: datetime, ttl: duration, rec: {} } tags Set<String>;
+  entity Kind enum ["staff", "guest"];
+  entity Plain;
+  action base;
+  action read in [base] appliesTo { principal: [Person], resource: [Person, Team], context: { addr?: Address, via?: Person, ips: Set<ipaddr> } };
+  action "write all" in [read] appliesTo { principal: [Person], resource: [Team], context: {} };
+}
+entity Top in [Org::Team];
+action top appliesTo { principal: [Top, Org::Person], resource: [Top], context: { "if": Bool } };
+"#;
+const VAL_ENTITIES: &str = r#"[
+ {"uid": {"type": "Org::Team", "id": "t0"}, "attrs": {"budget": 10, "lead": {"__entity": {"type": "Org::Person", "id": "ann"}}}, "parents": [{"type": "Org::Team", "id": "t1"}]},
+ {"uid": {"type": "Org::Team", "id": "t1"}, "attrs": {"budget": -9223372036854775808}, "parents": []},
+ {"uid": {"type": "Org::Person", "id": "ann"}, "attrs": {"addr": {"street": "a", "zip": 1, "geo": {"lat": {"__extn": {"fn": "decimal", "arg": "1.5"}}, "ip": {"__extn": {"fn": "ip", "arg": "10.0.0.1/8"}}}}, "boss": {"__entity": {"type": "Org::Person", "id": "bob"}}, "kind": {"__entity": {"type": "Org::Kind", "id": "staff"}}, "peers": [{"__entity": {"type": "Org::Person", "id": "bob"}}, {"__entity": {"type": "Org::Person", "id": "ghost"}}], "since": {"__extn": {"fn": "datetime", "arg": "2020-01-01"}}, "ttl": {"__extn": {"fn": "duration", "arg": "1d"}}, "rec": {}}, "parents": [{"type": "Org::Team", "id": "t0"}], "tags": {"k": ["a", "b"], "": []}},
+ {"uid": {"type": "Org::Person", "id": "bob"}, "attrs": {"addr": {"street": ""}, "kind": {"__entity": {"type": "Org::Kind", "id": "guest"}}, "peers": [], "since": {"__extn": {"fn": "datetime", "arg": "1969-12-31T23:59:59.999Z"}}, "ttl": {"__extn": {"fn": "duration", "arg": "-1ms"}}, "rec": {}}, "parents": []},
+ {"uid": {"type": "Top", "id": "x"}, "attrs": {}, "parents": [{"type": "Org::Team", "id": "t0"}]}
+]"#;
+const VAL_POLICIES: &[&str] = &[
+    r#"permit(principal, action == Org::Action::"read", resource) when { principal.addr.zip > 0 };"#,
+    r#"permit(principal, action == Org::Action::"read", resource) when { principal.addr has zip && principal.addr.zip > 0 && principal.addr has geo.ip && principal.addr.geo.ip.isInRange(ip("10.0.0.0/8")) };"#,
+    r#"permit(principal, action in [Org::Action::"base"], resource) when { principal has boss && principal.boss has boss && principal.boss.boss.kind == Org::Kind::"staff" };"#,
+    r#"forbid(principal is Org::Person in Org::Team::"t1", action, resource is Org::Team) when { resource.budget - 1 < 0 || resource has lead && resource.lead.peers.contains(principal) };"#,
+    r#"permit(principal, action == Org::Action::"base", resource);"#,
+    r#"permit(principal, action == Org::Action::"write all", resource) when { principal.hasTag("k") && principal.getTag("k").contains("a") && principal.getTag("").isEmpty() };"#,
+    r#"permit(principal, action, resource) when { principal is Person || resource is Org::Plain || principal is Top in Org::Team::"t0" };"#,
+    r#"permit(principal == Org::Person::"ann", action == Action::"top", resource == Top::"x") when { context["if"] && context has "if" };"#,
+    r#"permit(principal, action == Org::Action::"read", resource) when { context.ips.containsAny([ip("1.1.1.1"), principal.addr.geo.ip]) || context has via && context.via.peers.containsAll(principal.peers) };"#,
+    r#"permit(principal, action == Org::Action::"read", resource) when { principal.since.offset(principal.ttl) < datetime("2020-01-03") && principal.since.durationSince(principal.boss.since).toDays() > 0 && principal.since.toTime() == duration("0ms") };"#,
+    r#"permit(principal, action == Org::Action::"read", resource) when { principal.rec == {} && principal.rec has a || {} == principal.rec && principal.kind in [Org::Kind::"staff"] };"#,
+    r#"permit(principal, action == Org::Action::"read", resource) when { principal.kind == Org::Kind::"nosuch" || Org::Kind::"staff" in Org::Team::"t0" };"#,
+    r#"permit(principal, action == Org::Action::"read", resource) when { principal.hasTag("k") && resource.hasTag("k") && principal.getTag(resource.addr.street) == resource.getTag("k") };"#,
+    r#"permit(principal, action == Org::Action::"read", resource) when { principal.adr.zipp == 1 || principal.addr.zipcode == 2 || principal.bos.kind == Org::Kind::"staff" };"#,
+    r#"permit(principal, action == Org::Action::"read", resource) when { principal in resource && resource in principal.boss && [principal, resource] == [resource] };"#,
+    r#"permit(principal == ?principal, action == Org::Action::"read", resource in ?resource) when { principal.addr.street like "*a*" };"#,
+    r#"permit(principal, action == Org::Action::"read", resource) when { principal.addr.geo.lat.lessThan(decimal("2.0")) && ip(principal.addr.street).isLoopback() && decimal(principal.addr.street) == decimal("1.0") };"#,
+    r#"forbid(principal, action == Org::Action::"read", resource) unless { (if principal has boss then principal.boss else principal).peers.isEmpty() };"#,
+];
+
 const GENERATED_EXPRS: &[&str] = &["1 + 2", "principal.a.b has c", r#"User::"a""#, r#"[1, "a", {"k": User::"b"}]"#, r#"ip("1.2.3.4")"#, r#"if context.x then principal else resource"#, r#"-9223372036854775808"#, r#"--1"#, r#""\u{10FFFF}" like "*""#, r#"a::b::"c""#];
 
 const GENERATED_SCHEMAS: &[&str] = &[
@@ -299,6 +344,12 @@ pub fn pools() -> &'static Pools {
         }
         for (i, p) in GENERATED_POLICIES.iter().enumerate() {
             seeds.push(SeedDoc { name: format!("gen_policy_{i}"), kind: "policies", bytes: p.as_bytes().to_vec() });
+        }
+        // the synthetic bundle (names share the prefix `cli__genval`, so that it is treated like a corpus directory)
+        seeds.push(SeedDoc { name: "cli__genval__schema.cedarschema".into(), kind: "schema_cedar", bytes: VAL_SCHEMA.as_bytes().to_vec() });
+        seeds.push(SeedDoc { name: "cli__genval__entities.json".into(), kind: "entities_json", bytes: VAL_ENTITIES.as_bytes().to_vec() });
+        for (i, pol) in VAL_POLICIES.iter().enumerate() {
+            seeds.push(SeedDoc { name: format!("cli__genval__gen_policy{i}.cedar"), kind: "policies", bytes: pol.as_bytes().to_vec() });
         }
         for (i, body) in GENERATED_EVAL.iter().enumerate() {
             seeds.push(SeedDoc { name: format!("gen_eval_{i}"), kind: "policies", bytes: format!("permit(principal, action, resource) when {{ {body} }};\nforbid(principal, action, resource) unless {{ {body} }};").into_bytes() });
@@ -506,9 +557,12 @@ pub fn pools() -> &'static Pools {
                     let t = String::from_utf8_lossy(&sd.bytes).to_string();
                     let mut rest = t.as_str();
                     while let Some(i) = rest.find("Action::\"") {
+                        // include a namespace prefix such as `Org::`
+                        let start = rest[..i].rfind(|c: char| !(c.is_ascii_alphanumeric() || c == '_' || c == ':')).map(|k| k + 1).unwrap_or(0);
+                        let prefix = rest[start..i].to_string();
                         let tail = &rest[i + 9..];
                         if let Some(j) = tail.find('"') {
-                            let a = format!("Action::\"{}\"", &tail[..j]);
+                            let a = format!("{prefix}Action::\"{}\"", &tail[..j]);
                             if !actions.contains(&a) {
                                 actions.push(a);
                             }
@@ -1098,7 +1152,26 @@ impl Pipe<'_> {
                 if let Some(res) = self.stage("validate (bundle schema)", || v.validate(ps, ValidationMode::Strict)) {
                     self.stage("render validation result (bundle)", move || res.to_string().len() + res.validation_errors().map(|e| format!("{e:?}").len()).sum::<usize>());
                 }
-                self.stage("validate_with_level (bundle schema)", || v.validate_with_level(ps, ValidationMode::Permissive, 2).validation_passed());
+                for level in 0..3u32 {
+                    self.stage("validate_with_level (bundle schema)", || v.validate_with_level(ps, if level == 1 { ValidationMode::Strict } else { ValidationMode::Permissive }, level).to_string().len());
+                }
+                // link the bundle's templates against its own entities and authorize
+                let tids: Vec<PolicyId> = ps.templates().map(|t| t.id().clone()).take(2).collect();
+                if !tids.is_empty() {
+                    let mut linked = ps.clone();
+                    let us: Vec<EntityUid> = b.entities.iter().map(|e| e.uid()).take(3).collect();
+                    for (k, tid) in tids.iter().enumerate() {
+                        let slots: Vec<SlotId> = ps.template(tid).map(|t| t.slots().cloned().collect()).unwrap_or_default();
+                        if let Some(u) = us.get(k % us.len().max(1)) {
+                            let vals: HashMap<SlotId, EntityUid> = slots.into_iter().map(|s| (s, u.clone())).collect();
+                            self.stage("link (bundle)", || linked.link(tid.clone(), PolicyId::new(format!("bundle-link-{k}")), vals).is_ok());
+                        }
+                    }
+                    self.stage("validate linked (bundle)", || v.validate(&linked, ValidationMode::Strict).validation_passed());
+                    for r in b.requests.iter().take(6) {
+                        self.stage("authorize linked (bundle)", || Authorizer::new().is_authorized(r, &linked, &b.entities).decision());
+                    }
+                }
             }
         }
     }
